@@ -105,6 +105,11 @@ FIRST_MISSED = {
     "C02-12": "no check reported it -> KEYSEP ruleEphemeralFresh: no production code configures an ephemeral key generator; the default is btcec.NewPrivateKey, assigned once",
     "C04-11": "no check reported it -> SYM-2/3: EncryptAndHash/DecryptAndHash seal/open into a buffer of their own (nil destination)",
     "C04-12": "own property silent (C07 ASSERT only) -> PUBLISH rulePayloadSource: what writeMsgPattern encrypts is nothing, payloadToSend, or a buffer allocated in this call",
+    "C07-11": "own property silent (reported by C18 RACE) -> C07 imports C18",
+    "C08-11": "own property silent (reported by C16 FLUSH) -> C08 imports C16",
+    "C05-11": "no check reported it -> WIN-1: from the ACK send every way to the next iteration passes the advance of recvSeq (also on the ping leg)",
+    "C09-11": "own property silent (reported by C10 GBNHS-1) -> C09 imports C10",
+    "C15-12": "no check reported it -> RDC-2: the delegated bytes.Buffer of a Read method is never replaced as a whole and only Write/Read/Len/Cap are called on it",
     "C06-3": "no check reported it -> RATELIMIT: once lastResend is refreshed the packets are transmitted",
 }
 
